@@ -146,6 +146,10 @@ static void c03_gen(Rng &rng, Plan &plan, bool thorough)
 	plan.setp("style", (int64_t)rng.below(4));
 	plan.setp("delivery_seed", (int64_t)(rng.next() >> 2));
 	plan.setp("threads", rng.range(1, 4));
+	uint32_t xf = 0;
+	if (rng.chance(250)) xf |= LZMA_TELL_ANY_CHECK;
+	if (rng.chance(150)) xf |= LZMA_TELL_NO_CHECK;
+	plan.setp("extra_flags", xf);
 }
 
 static void c03_exec(const Plan &plan, Verdict &v)
@@ -199,7 +203,7 @@ static void c03_exec(const Plan &plan, Verdict &v)
 	ref::XzResult want = ref::parse_xz(file.data(), file.size(), true);
 	int dk = (int)plan.p("decoder");
 	int kind = dk < 6 ? 0 : dk < 8 ? 1 : 5;
-	Decoded got = run_decoder(kind, file, LZMA_CONCATENATED | LZMA_TELL_UNSUPPORTED_CHECK, nullptr, (uint64_t)plan.p("delivery_seed"), (int)plan.p("style"), true, (uint32_t)plan.p("threads", 2));
+	Decoded got = run_decoder(kind, file, LZMA_CONCATENATED | LZMA_TELL_UNSUPPORTED_CHECK | (uint32_t)plan.p("extra_flags", 0), nullptr, (uint64_t)plan.p("delivery_seed"), (int)plan.p("style"), true, (uint32_t)plan.p("threads", 2));
 	if (!got.error.empty()) { v.fail("decoder-error", "C03/decoder-error", got.error); return; }
 	bool acc = got.status == LZMA_STREAM_END;
 	std::string ctx = fmt(" [synth .xz %zu bytes, xz features 0x%x, lzma features 0x%x, %s, decoder %d; reference: %s%s; liblzma: %s, %zu bytes]", file.size(), want.features, x.lz_features,
@@ -317,6 +321,13 @@ static void c16_gen(Rng &rng, Plan &plan, bool thorough)
 	plan.setp("concatenated", (int64_t)rng.below(2));
 	plan.setp("finish", rng.chance(750) ? 1 : 0);
 	plan.setp("tail", (int64_t)rng.below(8));
+	// notice flags must not change the verdict or the bytes (the client just goes on after a notice)
+	uint32_t xf = 0;
+	if (rng.chance(300)) xf |= LZMA_TELL_ANY_CHECK;
+	if (rng.chance(200)) xf |= LZMA_TELL_NO_CHECK;
+	if (rng.chance(200)) xf |= LZMA_TELL_UNSUPPORTED_CHECK;
+	if (plan.ops.empty() && !plan.hasp("synth_illegal") && rng.chance(150)) xf |= LZMA_IGNORE_CHECK;   // only on undamaged artefacts
+	plan.setp("extra_flags", xf);
 }
 
 static void c16_exec(const Plan &plan, Verdict &v)
@@ -333,7 +344,7 @@ static void c16_exec(const Plan &plan, Verdict &v)
 	for (auto &op : plan.ops) if (op.name == "sfault") faulted = true;
 	bool concat = plan.p("concatenated", 1) != 0;
 	bool finish = plan.p("finish", 1) != 0;
-	uint32_t flags = concat ? LZMA_CONCATENATED : 0;
+	uint32_t flags = (concat ? LZMA_CONCATENATED : 0) | (uint32_t)plan.p("extra_flags", 0);
 	int style = (int)plan.p("style");
 	uint64_t dseed = (uint64_t)plan.p("delivery_seed");
 	v.count("runs.total");
